@@ -96,7 +96,7 @@ pub fn run(ctx: &Ctx) -> usize {
     // births 0002..9990: random, within seconds of a Jie, on month / year ends, around October 1582
     let (j, s) = match k % 6 {
       0 => {
-        let y = rng.range(2, 9989);
+        let y = rng.range(2, 9986);
         let i = 2 * rng.range(0, 11) + 1;
         match catch(|| SolarTerm::from_index(y as isize, i as isize)).and_then(|t| term_time(&t)).and_then(|t| catch(|| t.next(rng.range(-3, 3) as isize))) {
           Some(t) => inst(&t),
